@@ -559,7 +559,7 @@ pub fn run_check(prop: &str, tier: Tier, seed: u64, profiles: &[&str]) -> i32 {
     ev.set("worker_deaths", json!(deaths_total));
     ev.set("caps_hit", json!(caps));
     ev.set("exhaustive", json!(caps.is_empty()));
-    ev.set("bound", json!("deviations 0 and 1 on every baseline (every field the parser reads during open x its boundary-value menu); deviations = 2 on the baselines marked pairs=true; bounds checked: ops <= 64n+4096 and bytes <= 64n+2^20 (+sample) per call, thread CPU <= 0.5 s per phase, allocation <= 128n+8MiB"));
+    ev.set("bound", json!("deviations 0 and 1 on every baseline (every field the parser reads during open x its boundary-value menu); deviations = 2 on the baselines marked pairs=true; deviation 0 on every member of the input-shape families (metadata item x data type x payload length x meta form; fragment option tuples x run-length vectors (0..2)^3 in both delivery modes; chunk compositions x size/offset/sync shapes); bounds checked: ops <= 64n+4096 and bytes <= 64n+2^20 (+sample) per call, thread CPU <= 0.5 s per phase, allocation <= 128n+8MiB"));
     if samples.is_empty() {
         samples.push(json!("(none)"));
     }
